@@ -17,7 +17,9 @@ import (
 	"encoding/json"
 	"fmt"
 	"hash/fnv"
+	"math/rand"
 	"strings"
+	"sync"
 
 	"github.com/robertkrimen/otto"
 	. "ottoh/lib"
@@ -68,9 +70,10 @@ var features = []feature{
 		roots: []string{"a$", "a$p", "a$g"}, plain: []string{"a$", "a$g"}},
 	{name: "attrs", code: 5,
 		setup: []string{`var t$ = {}; t$.b = 1; t$.a = 2; Object.defineProperty(t$, 'h', {value: 3, enumerable: false, writable: false, configurable: false}); t$.c = 3;`,
-			`delete t$.a; t$.a = 4; t$[2] = 'two'; t$[''] = 'empty'; t$['__proto__x'] = 1; t$['é😀'] = 'uni'; Object.defineProperty(t$, 'w', {value: 1, writable: true, enumerable: false, configurable: true}); Object.defineProperty(t$, 'e', {value: 1, writable: false, enumerable: true, configurable: false});`},
-		muts:  []string{`t$.z = 1`, `delete t$.b; t$.b = 5`, `Object.defineProperty(t$, 'c', {enumerable: false})`, `t$.h = 9`, `t$.w = 2`, `Object.defineProperty(t$, 'w', {writable: false})`, `delete t$.e`, `delete t$.c`, `delete t$['']`, `t$.e = 7`, `Object.defineProperty(t$, 'a', {configurable: false})`, `t$[1] = 'one'`},
-		q:     []string{`Object.getOwnPropertyNames(t$).join()`, `Object.keys(t$).join()`, `(function(){ var s = ''; for (var k in t$) s += k + '=' + t$[k] + ';'; return s })()`, `(function(){ var s = ''; Object.getOwnPropertyNames(t$).forEach(function(n){ var d = Object.getOwnPropertyDescriptor(t$, n); s += n + (d.writable ? 'w' : '-') + (d.enumerable ? 'e' : '-') + (d.configurable ? 'c' : '-') + d.value + ';' }); return s })()`},
+			`delete t$.a; t$.a = 4; t$[2] = 'two'; t$[''] = 'empty'; t$['__proto__x'] = 1; t$['é😀'] = 'uni'; Object.defineProperty(t$, 'w', {value: 1, writable: true, enumerable: false, configurable: true}); Object.defineProperty(t$, 'e', {value: 1, writable: false, enumerable: true, configurable: false});`,
+			`for (var ti$ = 0; ti$ < 8; ti$++) Object.defineProperty(t$, 'm' + ti$, {value: {v: ti$}, writable: !!(ti$ & 4), enumerable: !!(ti$ & 2), configurable: !!(ti$ & 1)});`},
+		muts:  []string{`t$.z = 1`, `t$.m0.v = 'x0'`, `t$.m1.v = 'x1'; t$.m2.v = 'x2'`, `t$.m3.v = 'x3'; t$.m4.v = 'x4'`, `t$.m5.v = 'x5'; t$.m6.v = 'x6'; t$.m7.v = 'x7'`, `t$.m0.added = t$.m7`, `delete t$.b; t$.b = 5`, `Object.defineProperty(t$, 'c', {enumerable: false})`, `t$.h = 9`, `t$.w = 2`, `Object.defineProperty(t$, 'w', {writable: false})`, `delete t$.e`, `delete t$.c`, `delete t$['']`, `t$.e = 7`, `Object.defineProperty(t$, 'a', {configurable: false})`, `t$[1] = 'one'`},
+		q:     []string{`Object.getOwnPropertyNames(t$).join()`, `[0, 1, 2, 3, 4, 5, 6, 7].map(function(i){ var o = t$['m' + i]; return o ? o.v + (o.added ? '+' + o.added.v : '') : 'none' }).join()`, `Object.keys(t$).join()`, `(function(){ var s = ''; for (var k in t$) s += k + '=' + t$[k] + ';'; return s })()`, `(function(){ var s = ''; Object.getOwnPropertyNames(t$).forEach(function(n){ var d = Object.getOwnPropertyDescriptor(t$, n); s += n + (d.writable ? 'w' : '-') + (d.enumerable ? 'e' : '-') + (d.configurable ? 'c' : '-') + d.value + ';' }); return s })()`},
 		roots: []string{"t$"}, plain: []string{"t$"}},
 	{name: "frozen", code: 6,
 		setup: []string{`var f$ = Object.freeze({a: 1, n: {b: 2}}); var s$ = Object.seal({a: 1}); var e$ = Object.preventExtensions({a: 1}); var u$ = {a: 1, inner: {i: 1}};`},
@@ -79,9 +82,9 @@ var features = []feature{
 		roots: []string{"f$", "s$", "e$", "u$"}, plain: []string{"u$"}},
 	{name: "bound", code: 7,
 		setup: []string{`var bt$ = {v: 1}; function bf$(a, b){ return this.v + ':' + (a && a.k) + ':' + b + ':' + arguments.length }; var ba$ = {k: 'arg'};`,
-			`var b$ = bf$.bind(bt$, ba$); var bb$ = b$.bind(null, 'z'); var bn$ = Array.prototype.slice.bind([1, 2, 3], 1); function BC$(a, b){ this.s = a + b }; var bc$ = BC$.bind(null, 'pre');`},
-		muts:  []string{`bt$.v = 2`, `ba$.k = 'changed'`, `bt$ = {v: 'rebound var only'}`, `b$.tag = 1`, `bf$ = null`, `ba$.k = {toString: function(){ return 'K' }}`, `bt$.v = ba$`, `BC$.prototype.extra = 'x'`},
-		q:     []string{`b$('q') + ',' + b$.length + ',' + b$.tag`, `bb$('r', 's')`, `bn$().join()`, `new bc$('post').s + ',' + (new bc$(1) instanceof BC$) + ',' + new bc$(1).extra`, `typeof bf$`},
+			`var b$ = bf$.bind(bt$, ba$); var bb$ = b$.bind(null, 'z'); var bn$ = Array.prototype.slice.bind([1, 2, 3], 1); function BC$(a, b){ this.s = a + b }; var bc$ = BC$.bind(null, 'pre'); var b3o$ = {k: 'last'}; var b3$ = function(a, b, c, d){ return a + ':' + b + ':' + c.k + ':' + d }.bind(null, 1, 'two', b3o$);`},
+		muts:  []string{`bt$.v = 2`, `ba$.k = 'changed'`, `b3o$.k = 'last changed'`, `b3o$.k += '+'`, `bt$ = {v: 'rebound var only'}`, `b$.tag = 1`, `bf$ = null`, `ba$.k = {toString: function(){ return 'K' }}`, `bt$.v = ba$`, `BC$.prototype.extra = 'x'`},
+		q:     []string{`b$('q') + ',' + b$.length + ',' + b$.tag`, `b3$('d') + ',' + b3$.length`, `bb$('r', 's')`, `bn$().join()`, `new bc$('post').s + ',' + (new bc$(1) instanceof BC$) + ',' + new bc$(1).extra`, `typeof bf$`},
 		roots: []string{"bt$", "ba$", "b$", "bb$"}, plain: []string{"bt$", "ba$"}},
 	{name: "arguments", code: 8,
 		setup: []string{`function ag$(x, y){ return {args: arguments, setx: function(v){ x = v }, getx: function(){ return x }, gety: function(){ return y }, sety: function(v){ y = v }} }`,
@@ -97,8 +100,8 @@ var features = []feature{
 		roots: []string{}, plain: []string{}},
 	{name: "wrappers", code: 10,
 		setup: []string{`var d$ = new Date(86400000 * 366); var r$ = /a+/g; r$.exec('xaa'); var so$ = new String('abc'); so$.extra = 1; var no$ = new Number(5); var bo$ = new Boolean(false); var ri$ = new RegExp('B', 'im');`},
-		muts:  []string{`d$.setTime(5)`, `r$.exec('aaa baa')`, `r$.lastIndex = 0`, `so$.extra = 2`, `d$.setUTCFullYear(1999)`, `d$.tag = 'd'`, `no$.x = 1`, `r$.test('a')`, `ri$.lastIndex = 3`, `d$.setUTCHours(25)`, `so$[7] = 'idx'`, `d$ = new Date(0)`},
-		q:     []string{`d$.getTime() + ',' + d$.tag`, `r$.lastIndex + ',' + r$.source + ',' + r$.global + ',' + ri$.lastIndex + ',' + ri$.ignoreCase + ri$.multiline + ri$.test('ab')`, `so$ + so$.length + so$.extra + so$[1] + so$[7]`, `(no$ + 1) + ',' + no$.x + ',' + bo$.valueOf() + ',' + typeof bo$`},
+		muts:  []string{`d$.setTime(5)`, `/(m$)(x)?/.test('am$b')`, `/(b)(c)/.test('abc$')`, `r$.exec('aaa baa')`, `r$.lastIndex = 0`, `so$.extra = 2`, `d$.setUTCFullYear(1999)`, `d$.tag = 'd'`, `no$.x = 1`, `r$.test('a')`, `ri$.lastIndex = 3`, `d$.setUTCHours(25)`, `so$[7] = 'idx'`, `d$ = new Date(0)`},
+		q:     []string{`d$.getTime() + ',' + d$.tag`, `r$.lastIndex + ',' + r$.source + ',' + r$.global + ',' + ri$.lastIndex + ',' + ri$.ignoreCase + ri$.multiline + ri$.source`, `so$ + so$.length + so$.extra + so$[1] + so$[7]`, `(no$ + 1) + ',' + no$.x + ',' + bo$.valueOf() + ',' + typeof bo$`, `String(RegExp['\\x241']) + ',' + String(RegExp['\\x242']) + ',' + String(RegExp.input)`},
 		roots: []string{"d$", "r$", "so$", "no$"}, plain: []string{}},
 	{name: "arrays", code: 11,
 		setup: []string{`var ar$ = [1, , {x: 1}, [2, 3]]; ar$.extra = 'e'; var big$ = []; big$[100] = 'far'; var ao$ = {0: 'a', 1: 'b', length: 2};`},
@@ -107,10 +110,10 @@ var features = []feature{
 		roots: []string{"ar$", "ao$"}, plain: []string{"ao$"}},
 	{name: "with", code: 12,
 		setup: []string{`var w$o = {wx: 1}; var w$, w$s, w$d; with (w$o) { w$ = function(){ return wx }; w$s = function(v){ wx = v }; w$d = function(){ return delete wx } }`,
-			`var w$2; with ({inner: 'in'}) { with (w$o) { w$2 = function(){ return inner + wx } } }`},
-		muts:  []string{`w$o.wx = 2`, `w$s(3)`, `w$d()`, `w$s('after')`, `w$o.inner = 'shadow'`, `w$o = {wx: 'other object'}`, `wx = 'global wx'`},
-		q:     []string{`(function(){ try { return w$() } catch (e) { return 'E:' + e.name } })()`, `(function(){ try { return w$2() } catch (e) { return 'E:' + e.name } })()`, `w$o.wx + ',' + (typeof wx)`},
-		roots: []string{"w$o"}, plain: []string{"w$o"}},
+			`var w$i = {inner: 'in'}; var gv$ = 'g0'; var w$2, w$g; with (w$i) { with (w$o) { w$2 = function(){ return inner + wx }; w$g = function(v){ if (v !== undefined) gv$ = v; return (typeof gv$) + String(gv$) } } }`},
+		muts:  []string{`w$o.wx = 2`, `w$i.inner = 'changed'`, `gv$ = 'set directly'`, `w$g('set through closure')`, `w$i.gv$ = 'shadow in outer with'`, `delete w$i.inner`, `w$s(3)`, `w$d()`, `w$s('after')`, `w$o.inner = 'shadow'`, `w$o = {wx: 'other object'}`, `wx = 'global wx'`},
+		q:     []string{`w$g() + ',' + gv$`, `(function(){ try { return w$() } catch (e) { return 'E:' + e.name } })()`, `(function(){ try { return w$2() } catch (e) { return 'E:' + e.name } })()`, `w$o.wx + ',' + (typeof wx)`},
+		roots: []string{"w$o", "w$i"}, plain: []string{"w$o"}},
 	{name: "catch", code: 13,
 		setup: []string{`var ct$; try { throw {v: 1} } catch (ex) { ct$ = {get: function(){ return ex.v }, set: function(v){ ex = {v: v} }, mut: function(v){ ex.v = v }, raw: function(){ return ex }} }`,
 			`var nf$ = function fact(n){ return n <= 1 ? 1 : n * fact(n - 1) }; var nf$2 = function self(){ return self }; var er$ = new TypeError('m$'); er$.extra = 1; var er$2; try { null.x } catch (e) { er$2 = e }`},
@@ -119,7 +122,7 @@ var features = []feature{
 		roots: []string{"ct$", "er$", "er$2"}, plain: []string{"ct$"}},
 	{name: "cycles", code: 14,
 		setup: []string{`var cy$ = {name: 'a'}; cy$.self = cy$; var cz$ = {peer: cy$}; cy$.peer = cz$; var sh$ = {}; var s1$ = {r: sh$}, s2$ = {r: sh$}; var gl$ = this; gl$.selfg$ = gl$;`,
-			`function F$(){}; F$.stat = {a: 1}; F$.prototype.back = F$; var fi$ = new F$(); var lst$ = null; for (var i$ = 0; i$ < 40; i$++) lst$ = {next: lst$, i: i$};`},
+			`function F$(){}; F$.stat = {a: 1}; F$.prototype.back = F$; var fi$ = new F$(); var lst$ = null; for (var i$ = 0; i$ < 12; i$++) lst$ = {next: lst$, i: i$};`},
 		muts:  []string{`s1$.r.v = 1`, `cy$.self = null`, `cz$.peer = cz$`, `s2$.r = {}`, `F$.stat.a++`, `lst$.next.next.i = 'mut'`, `lst$ = lst$.next`, `selfg$.viaSelf$ = 1`, `delete gl$.selfg$`, `fi$.constructor = null`, `sh$.back = s1$`},
 		q:     []string{`(cy$.self === cy$) + ',' + (cy$.peer.peer === cy$) + ',' + (s1$.r === s2$.r) + ',' + s2$.r.v + ',' + (sh$.back === s1$)`, `(typeof selfg$ !== 'undefined' && selfg$ === this) + ',' + (typeof viaSelf$) + ',' + (fi$.back === F$) + ',' + F$.stat.a + ',' + (fi$.constructor === F$)`, `(function(){ var s = '', p = lst$, n = 0; while (p) { n++; if (n < 4) s += p.i + ','; p = p.next } return s + n })()`},
 		roots: []string{"cy$", "cz$", "s1$", "s2$", "fi$"}, plain: []string{"cy$", "cz$", "s1$", "s2$", "sh$"}},
@@ -128,6 +131,23 @@ var features = []feature{
 			`Object.defineProperty(this, 'ga$', {get: function(){ return 'getter' + nv$ }, set: function(v){ nv$ = v }, configurable: true}); Object.defineProperty(this, 'ro$', {value: 'const', writable: false, configurable: false, enumerable: false});`},
 		muts:  []string{`delete ev$`, `nv$ = 2`, `ga$ = 'viaSetter'`, `delete im$`, `fd$ = function(){ return 'reassigned' }`, `ro$ = 'ignored'`, `delete ga$`, `var nv$ = 'redeclared'`, `function fd$(){ return 'redeclared fn' }`, `this.ev$ = 'again'`, `eval('var late$ = 1')`},
 		q:     []string{`(typeof ev$) + ',' + nv$ + ',' + fd$() + ',' + fc$('a') + ',' + (typeof im$) + ',' + (typeof ga$ !== 'undefined' ? ga$ : 'gone') + ',' + ro$ + ',' + (typeof late$)`, `(function(g){ return ['ev$', 'nv$', 'fd$', 'im$', 'ga$', 'ro$'].map(function(n){ var d = Object.getOwnPropertyDescriptor(g, n); return d ? (d.configurable ? 'c' : '-') + (d.enumerable ? 'e' : '-') + (d.writable ? 'w' : '-') : 'none' }).join() })(this)`},
+		roots: []string{}, plain: []string{}},
+	{name: "sharing", code: 19,
+		setup: []string{`var shv$ = [[1], function(){ return 1 }, new Date(1), /r/g, new Error('e'), (function(){ return arguments })(1, 2), (function(a){ return a }).bind(null, 'b'), new String('s'), {}, new Number(1), Object.create(null), [[0]]];`,
+			`var sh1$ = {}, sh2$ = {}; shv$.forEach(function(v, i){ sh1$['k' + i] = v; sh2$['k' + i] = v }); var sh3$ = [shv$[0], shv$[0], shv$[11][0], shv$[11][0]];`},
+		muts:  []string{`sh1$.k0.push(2)`, `sh1$.k1.tag = 't'`, `sh1$.k2.setTime(99)`, `sh1$.k3.lastIndex = 4`, `sh1$.k4.message = 'changed'`, `sh1$.k5[0] = 'a0'`, `sh1$.k6.tag = 'b'`, `sh1$.k7.tag = 's'`, `sh1$.k8.tag = 'o'`, `sh1$.k9.tag = 'n'`, `sh1$.k10.tag = 'bare'`, `sh3$[0].push('via3')`, `sh3$[2].push('inner')`, `sh2$.k0 = [1]`, `shv$.reverse()`},
+		q:     []string{`Object.keys(sh1$).map(function(k){ return sh1$[k] === sh2$[k] ? 1 : 0 }).join('') + (sh3$[0] === sh3$[1] ? 1 : 0) + (sh3$[2] === sh3$[3] ? 1 : 0) + (sh3$[0] === sh1$.k0 ? 1 : 0) + (shv$.indexOf(sh1$.k2))`, `sh2$.k0.length + ',' + sh2$.k1.tag + ',' + sh2$.k2.getTime() + ',' + sh2$.k3.lastIndex + ',' + sh2$.k4.message + ',' + sh2$.k5[0] + ',' + sh2$.k6.tag + ',' + sh2$.k7.tag + ',' + sh2$.k8.tag + ',' + sh2$.k9.tag + ',' + sh2$.k10.tag + ',' + sh3$[1].length + ',' + sh3$[3].length`},
+		roots: []string{"sh1$", "sh2$", "shv$"}, plain: []string{"sh1$", "sh2$"}},
+	{name: "scopeflags", code: 18,
+		setup: []string{`function dl$(){ eval('var dv = 1'); var nd = 2; return {del: function(){ return delete dv }, deln: function(){ return delete nd }, get: function(){ return (typeof dv) + (typeof nd) }, set: function(v){ dv = v; nd = v }} }; var dl$o = dl$(), dl$p = dl$();`,
+			`var me$ = function me(){ me = 5; return typeof me }; var me$r = me$(); var lv$ = (function(){ var a = 1, b = {deep: {deeper: 'x'}}; function inner(){ return a + b.deep.deeper } return {inner: inner, seta: function(v){ a = v }, getb: function(){ return b }} })();`},
+		muts:  []string{`dl$o.del()`, `dl$o.deln()`, `dl$o.set('s')`, `dl$p.del(); dl$p.set(1)`, `lv$.seta(7)`, `lv$.getb().deep.deeper = 'y'`, `lv$.getb().deep = {deeper: 'z'}`, `me$()`},
+		q:     []string{`dl$o.get() + ',' + dl$p.get()`, `me$r + ',' + lv$.inner()`},
+		roots: []string{"dl$o", "lv$"}, plain: []string{"dl$o", "lv$"}},
+	{name: "hostcfg", code: 17,
+		setup: []string{`var hostMark$ = 0;`},
+		muts:  []string{`hostMark$++`, `debugger;`, `debugger; debugger;`, `hostMark$ = 'm'`, `dbgHits = 'reset'`},
+		q:     []string{`hostEval('typeof hostMark$ + String(hostMark$)')`, `(typeof dbgHits) + ':' + (typeof dbgHits === 'undefined' ? '' : dbgHits)`, `Math.random() + ',' + Math.random()`, `(function d(n){ if (n > 150) return 'no limit'; try { return d(n + 1) } catch (e) { return n + e.name } })(0)`},
 		roots: []string{}, plain: []string{}},
 	{name: "getterstate", code: 16,
 		setup: []string{`var gs$ = (function(){ var log = []; var target = {v: 0}; var api = {}; Object.defineProperty(api, 'hit', {get: function(){ log.push(log.length); return log.length }, enumerable: false}); api.log = function(){ return log.join('') }; api.target = target; api.bump = function(){ target.v++; return api }; return api })();`},
@@ -147,6 +167,26 @@ var (
 	defCaller    = feature{name: "caller", code: 104, setup: []string{`function cf$(){ return cf$.caller === cg$ }; function cg$(){ return cf$() }`}, q: []string{`typeof cf$`}}
 )
 
+// always-on observation: every intrinsic the runtime record points to (rt.global.*Prototype, constructors,
+// the global object, eval) is the one the copy's scripts see: fresh values of every built-in kind, errors
+// raised by the interpreter itself, results of built-in factories
+const qIntrinsics = `(function(g){ var gp = Object.getPrototypeOf, r = [];
+  function t(v, C){ r.push(gp(v) === C.prototype ? 1 : 0) }
+  function thrown(f){ try { f() } catch (e) { return e } return {} }
+  t([], Array); t({}, Object); t(function(){}, Function); t(new String('s'), String); t(Object('s'), String); t(Object(1), Number); t(Object(true), Boolean);
+  t(new Date(0), Date); t(/x/, RegExp); t(new RegExp('y'), RegExp); t(new Error('e'), Error); t(new EvalError('e'), EvalError); t(new TypeError('e'), TypeError);
+  t(new RangeError('e'), RangeError); t(new ReferenceError('e'), ReferenceError); t(new SyntaxError('e'), SyntaxError); t(new URIError('e'), URIError);
+  t(thrown(function(){ null.x }), TypeError); t(thrown(function(){ return undefinedVariable$$ }), ReferenceError); t(thrown(function(){ new Array(-1) }), RangeError);
+  t(thrown(function(){ eval('(') }), SyntaxError); t(thrown(function(){ decodeURIComponent('%') }), URIError); t(thrown(function(){ throw Error('called') }), Error);
+  t((function(){ return arguments })(), Object); t(JSON.parse('[1]'), Array); t(JSON.parse('{"a":1}'), Object); t(JSON.parse('{"a":[1]}').a, Array);
+  t((function(){}).bind(null), Function); t(new Function('return 1'), Function); t('a,b'.split(','), Array); t(/a/.exec('a'), Array); t([1].map(function(x){ return x }), Array);
+  t(Object.keys({}), Array); t(Object.getOwnPropertyDescriptor({a: 1}, 'a'), Object); t(Object.create(Object.prototype), Object); t([].concat([1]), Array); t([1, 2].slice(0), Array);
+  t(new (function(){})(), Object); t((function(){}).prototype, Object); t(Array(3), Array); t(String.prototype.match.call('aa', /a/g), Array); t(Object.getOwnPropertyNames({}), Array);
+  r.push(gp(g) === Object.prototype ? 1 : 0); r.push(gp(Math) === Object.prototype ? 1 : 0); r.push(gp(JSON) === Object.prototype ? 1 : 0); r.push(g.eval === eval ? 1 : 0);
+  r.push((function(){ return this })() === g ? 1 : 0); r.push((0, eval)('this') === g ? 1 : 0); r.push(eval('this') === g ? 1 : 0);
+  r.push([Object, Function, Array, String, Boolean, Number, Date, RegExp, Error, EvalError, TypeError, RangeError, ReferenceError, SyntaxError, URIError].map(function(C){ return (typeof C === 'function' && C.prototype && C.prototype.constructor === C && gp(C) === Function.prototype) ? 1 : 0 }).join(''));
+  return r.join('') })(this)`
+
 const qCaller = `String(cg$())`
 const qEvalSwap = `(function(){ eval = e$; var r = (function(){ var evx$ = 'local'; return eval('evx$') })(); eval = parseInt; return r })()`
 
@@ -159,24 +199,9 @@ const dumperSrc = `var __dump = (function(global){
       boolVal = Boolean.prototype.valueOf, stringify = JSON.stringify, Str = String, create = Object.create;
   function isObj(v){ return (typeof v === 'object' && v !== null) || typeof v === 'function' }
   function num(v){ return (v === 0 && 1 / v < 0) ? '-0' : Str(v) }
-  function Table(){ this.objs = []; this.buckets = create(null) }
-  function key(o){ return typeof o === 'function' ? 'f:' + gOPD(o, 'name').value : 'o:' + toStr.call(o) }
-  function find(t, o){
-    var b = t.buckets[key(o)];
-    if (b) for (var i = 0; i < b.length; i++) if (t.objs[b[i]] === o) return b[i];
-    return -1;
-  }
-  function add(t, o){
-    var i = find(t, o);
-    if (i >= 0) return i;
-    var k = key(o);
-    (t.buckets[k] || (t.buckets[k] = [])).push(t.objs.length);
-    t.objs.push(o);
-    return t.objs.length - 1;
-  }
   function walk(roots, stop){
-    var t = new Table(), objs = t.objs, out = [];
-    function id(o){ return add(t, o) }
+    var objs = [], out = [];
+    function id(o){ var i = objs.indexOf(o); if (i < 0) { i = objs.length; objs.push(o) } return i }
     function enc(v){
       if (isObj(v)) return 'o' + id(v);
       if (v === undefined) return 'u';
@@ -188,10 +213,11 @@ const dumperSrc = `var __dump = (function(global){
     for (var r = 0; r < roots.length; r++) id(roots[r]);
     for (var k = 0; k < objs.length; k++) {
       var o = objs[k];
-      var pi = stop ? find(stop, o) : -1;
+      var pi = stop ? stop.indexOf(o) : -1;
       if (pi >= 0) { out.push(['#' + pi, 1, -1, '', '', []]); continue }
       var cls = toStr.call(o).slice(8, -1), pk = '', pd = '', isFn = typeof o === 'function';
       if (isFn) { pk = 'f'; pd = fnToStr.call(o) }
+      if (stop && isFn && pd.slice(-17) === '{ [native code] }' && cls === 'Function' && !bound(o)) { out.push(['#native ' + pd, 1, -1, '', '', []]); continue }
       else if (cls === 'Date') { pk = 'D'; pd = num(dateGet.call(o)) }
       else if (cls === 'String') { pk = 'S'; pd = strVal.call(o) }
       else if (cls === 'Number') { pk = 'N'; pd = num(numVal.call(o)) }
@@ -209,16 +235,18 @@ const dumperSrc = `var __dump = (function(global){
       }
       out.push([cls, isExt(o) ? 1 : 0, protoId, pk, pd, props]);
     }
-    t.out = out;
-    return t;
+    return out;
   }
-  var pristine = walk([global], null);
-  pristine.out = null;
+  function bound(f){ var d = gOPD(f, 'name'); return !!d && typeof d.value === 'string' && d.value.slice(0, 6) === 'bound ' }
+  // where a user-heap dump stops: the well-known built-in objects (by position in this list) and native functions
+  var pristine = [global, Object, Function, Array, String, Boolean, Number, Math, Date, RegExp, Error, EvalError, TypeError,
+    RangeError, ReferenceError, SyntaxError, URIError, JSON];
+  for (var pi0 = 1; pi0 < 17; pi0++) if (pi0 !== 7) pristine.push(pristine[pi0].prototype);
   return function(names){
-    if (!names) return stringify(walk([global], null).out);
+    if (!names) return stringify(walk([global], null));
     var roots = [];
     for (var i = 0; i < names.length; i++) { var d = gOPD(global, names[i]); if (d && 'value' in d && isObj(d.value)) roots.push(d.value) }
-    return stringify(walk(roots, pristine).out);
+    return stringify(walk(roots, pristine));
   }
 })(this);`
 
@@ -230,8 +258,21 @@ type side struct {
 	id      int
 }
 
+type entry struct {
+	coq, txt, bucket string
+	nontrivial       bool
+}
+
+// one generator per scenario: its own PRNG (seeded from the run's PRNG) and its own output list, so that
+// scenarios can run on all cores and still come out in a deterministic order
 type gen struct {
-	env *Env
+	rng  *rand.Rand
+	tier string
+	outs []entry
+}
+
+func (g *gen) add(coq, txt, bucket string, nontrivial bool) {
+	g.outs = append(g.outs, entry{coq, txt, bucket, nontrivial})
 }
 
 func js(vm *otto.Otto, src string) string {
@@ -253,11 +294,25 @@ func digest(s string) string {
 	if len(u) <= 40 {
 		return s
 	}
+	return fmt.Sprintf("#%d:%016x", len(u), hash64(u))
+}
+
+func hash64(u []uint16) uint64 {
 	h := fnv.New64a()
 	for _, c := range u {
 		h.Write([]byte{byte(c >> 8), byte(c)})
 	}
-	return fmt.Sprintf("#%d:%016x", len(u), h.Sum64())
+	return h.Sum64()
+}
+
+// how an observed text crosses into Coq: its UTF-16 units if it is short, otherwise its length and a
+// 64-bit FNV-1a digest with the top bit set (so that it can never be mistaken for a code unit)
+func cobs(s string) string {
+	u := Units(s)
+	if len(u) <= 8 {
+		return Cunits(u)
+	}
+	return fmt.Sprintf("[%d; %d]", len(u), hash64(u)|1<<63)
 }
 
 func safeCopy(vm *otto.Otto) (c *otto.Otto, p interface{}) {
@@ -269,8 +324,29 @@ func safeCopy(vm *otto.Otto) (c *otto.Otto, p interface{}) {
 	return vm.Copy(), nil
 }
 
-func replay(log []string) *otto.Otto {
+// runtime configuration that Copy() has to carry over (stack depth limit, random source, debugger
+// handler) and a Go function that evaluates a script in the runtime it is called from (call.Otto)
+func newVM(cfg bool) *otto.Otto {
 	vm := otto.New()
+	if cfg {
+		vm.SetStackDepthLimit(60)
+		vm.SetRandomSource(func() float64 { return 0.25 })
+		vm.SetDebuggerHandler(func(o *otto.Otto) {
+			_, _ = o.Run("dbgHits = (typeof dbgHits === 'number' ? dbgHits : 0) + 1")
+		})
+		_ = vm.Set("hostEval", func(call otto.FunctionCall) otto.Value {
+			v, err := call.Otto.Run(call.Argument(0).String())
+			if err != nil {
+				return otto.UndefinedValue()
+			}
+			return v
+		})
+	}
+	return vm
+}
+
+func replay(log []string, cfg bool) *otto.Otto {
+	vm := newVM(cfg)
 	for _, s := range log {
 		RunJS(vm, s)
 	}
@@ -292,25 +368,44 @@ func (p picked) qexpr() string {
 
 func runC17(env *Env) {
 	env.Import = "Otto.C17.Corr"
-	env.Rule = "scenario = setup history H (2-6 feature instances out of 16 kinds: closures sharing stashes, nested scopes, prototype chains, accessors, attributes and order, frozen/sealed, bound functions, arguments aliasing, modified built-ins, Date/RegExp/wrapper objects, arrays, with/catch/named-function scopes, cycles and sharing, global bindings, stateful getters; run as separate programs and cross-linked), Copy(), then 2-7 rounds each mutating one runtime (original, copy, copy of copy, later copy) or taking a further copy; after every round every runtime is compared with its replica on all observation programs and on a script dump of its user heap; non-trivial = distinct scenario with at least one mutation round and at least 3 feature kinds, or a heap-dump case"
-	g := &gen{env: env}
+	env.Rule = "scenario = setup history H (2-6 feature instances out of 19 kinds: closures sharing stashes, nested scopes, prototype chains, accessors, attributes and order, frozen/sealed, bound functions, arguments aliasing, modified built-ins, Date/RegExp/wrapper objects, arrays, with/catch/named-function scopes, cycles, sharing of one object of every class through several paths, global bindings, stateful getters, deletable/immutable scope bindings, host configuration (stack limit, random source, debugger handler, call.Otto); run as separate programs and cross-linked), Copy(), then 2-7 rounds each mutating one runtime (original, copy, copy of copy, later copy) or taking a further copy; after every round every runtime is compared with its replica on all observation programs and on a script dump of its user heap; non-trivial = distinct scenario with at least one mutation round and at least 3 feature kinds, or a heap-dump case"
 	pinned := []feature{defArgParam, defEvalGone1, defEvalGone2, defEvalSwap, defCaller}
-	for i := 0; env.Count() < env.N; i++ {
-		switch {
-		case i < len(pinned):
-			g.scenario(&pinned[i], i)
-		case env.Rng.Intn(40) == 0:
-			d := pinned[env.Rng.Intn(len(pinned))]
-			g.scenario(&d, i)
-		default:
-			g.scenario(nil, i)
+	const batch = 64
+	for base := 0; env.Count() < env.N; base += batch {
+		gens := make([]*gen, batch)
+		var wg sync.WaitGroup
+		for k := 0; k < batch; k++ {
+			i := base + k
+			var defect *feature
+			switch {
+			case i < len(pinned):
+				defect = &pinned[i]
+			case env.Rng.Intn(40) == 0:
+				d := pinned[env.Rng.Intn(len(pinned))]
+				defect = &d
+			}
+			g := &gen{rng: rand.New(rand.NewSource(env.Rng.Int63())), tier: env.Tier}
+			gens[k] = g
+			wg.Add(1)
+			go func() {
+				defer wg.Done()
+				g.scenario(defect, i)
+			}()
+		}
+		wg.Wait()
+		for _, g := range gens {
+			for _, e := range g.outs {
+				if env.Count() < env.N {
+					env.Add(e.coq, e.txt, e.bucket, e.nontrivial)
+				}
+			}
 		}
 	}
 	hookCases(env)
 }
 
 func (g *gen) scenario(defect *feature, serial int) {
-	r := g.env.Rng
+	r := g.rng
 	// ---- choose the features of H
 	nf := 2 + r.Intn(5)
 	var ps []picked
@@ -387,11 +482,17 @@ func (g *gen) scenario(defect *feature, serial int) {
 	}
 	H = append([]string{dumperSrc}, H...) // the dumper is installed first, from pristine built-ins, and is copied like everything else
 
+	if hookEnabled && (defect != nil || serial%24 == 7) {
+		g.hookCase(H, hist, serial)
+	}
 	var qs []string
 	for _, p := range ps {
 		qs = append(qs, p.qexpr())
 	}
 	Q := strings.Join(qs, " + '#' + ")
+	if !evalTouched(hist) {
+		Q += " + '#' + " + qIntrinsics
+	}
 	rootsJS, _ := json.Marshal(rootNames)
 	QD := "__dump(" + string(rootsJS) + ")"
 
@@ -399,17 +500,17 @@ func (g *gen) scenario(defect *feature, serial int) {
 	fmt.Fprintf(&text, "H=<dumper>;%q", H[1:])
 	var obs []string
 	bad := false
-	observe := func(s *side, tag string) {
+	observe := func(s *side, tag string, deep bool) {
 		add := func(q int, src string) {
 			a, b := js(s.vm, src), js(s.rep, src)
 			if a != b {
 				bad = true
 				fmt.Fprintf(&text, " ; DIFF side%d %s q%d real=%q replica=%q", s.id, tag, q, a, b)
 			}
-			obs = append(obs, fmt.Sprintf("(%d, %d, %s, %s)", s.id, q, Cstr(digest(a)), Cstr(digest(b))))
+			obs = append(obs, fmt.Sprintf("(%d, %d, %s, %s)", s.id, q, cobs(a), cobs(b)))
 		}
 		add(0, Q)
-		if len(rootNames) > 0 {
+		if deep && len(rootNames) > 0 {
 			add(1, QD)
 		}
 		if defect != nil && defect.code == 104 {
@@ -420,15 +521,21 @@ func (g *gen) scenario(defect *feature, serial int) {
 		}
 	}
 
+	cfg := false
+	for _, h := range hist {
+		if h == 17 {
+			cfg = true
+		}
+	}
 	// ---- original and its replica
-	a := &side{vm: otto.New(), id: 0}
+	a := &side{vm: newVM(cfg), id: 0}
 	for _, s := range H {
 		RunJS(a.vm, s)
 	}
 	a.log = append([]string{}, H...)
-	a.rep = replay(a.log)
+	a.rep = replay(a.log, cfg)
 	sides := []*side{a}
-	observe(a, "afterH")
+	observe(a, "afterH", false)
 
 	copyOK := true
 	mkcopy := func(parent *side) *side {
@@ -438,7 +545,7 @@ func (g *gen) scenario(defect *feature, serial int) {
 			return nil
 		}
 		s := &side{vm: c, id: len(sides), log: append([]string{}, parent.log...)}
-		s.rep = replay(s.log)
+		s.rep = replay(s.log, cfg)
 		fmt.Fprintf(&text, " ; side%d=Copy(side%d)", s.id, parent.id)
 		return s
 	}
@@ -448,8 +555,8 @@ func (g *gen) scenario(defect *feature, serial int) {
 	} else {
 		sides = append(sides, b)
 		g.dumpCase(a, b, rootNames, serial, &text)
-		observe(a, "afterCopy")
-		observe(b, "afterCopy")
+		observe(a, "afterCopy", true)
+		observe(b, "afterCopy", true)
 		// ---- rounds
 		rounds := 2 + r.Intn(6)
 		nm := 0
@@ -481,7 +588,7 @@ func (g *gen) scenario(defect *feature, serial int) {
 				nm++
 			}
 			for _, s := range sides {
-				observe(s, fmt.Sprintf("round%d", i))
+				observe(s, fmt.Sprintf("round%d", i), i == rounds-1 || r.Intn(5) == 0)
 			}
 		}
 		_ = nm
@@ -498,7 +605,17 @@ func (g *gen) scenario(defect *feature, serial int) {
 		bucket += "-diff"
 	}
 	coq := fmt.Sprintf("CBlack %s %s %s", Czlist(hist), Cbool(copyOK), Clist(obs))
-	g.env.Add(coq, fmt.Sprintf("black #%d hist=%v copy_ok=%v sides=%d %s", serial, hist, copyOK, len(sides), text.String()), bucket, len(kinds) >= 3)
+	g.add(coq, fmt.Sprintf("black #%d hist=%v copy_ok=%v sides=%d %s", serial, hist, copyOK, len(sides), text.String()), bucket, len(kinds) >= 3)
+}
+
+// the eval witnesses rebind the global eval; the intrinsics observation uses eval and stays out of those cases
+func evalTouched(hist []int64) bool {
+	for _, h := range hist {
+		if h == 102 || h == 103 {
+			return true
+		}
+	}
+	return false
 }
 
 func (g *gen) apply(x *side, m string, text *strings.Builder) {
@@ -590,8 +707,8 @@ func heapOfDump(dump string, base int64, t *interner) (cells []string, n int, er
 }
 
 func (g *gen) dumpCase(parent, child *side, rootNames []string, serial int, text *strings.Builder) {
-	r := g.env.Rng
-	full := r.Intn(14) == 0
+	r := g.rng
+	full := r.Intn(30) == 0
 	if !full && (len(rootNames) == 0 || r.Intn(2) == 0) {
 		return
 	}
@@ -645,6 +762,6 @@ func (g *gen) dumpCase(parent, child *side, rootNames []string, serial int, text
 		same = "DIFFERENT"
 	}
 	coq := fmt.Sprintf("CDump false %s %s %s %s", Clist(ca), Clist(cb), Clist(phi), Clist(all))
-	g.env.Add(coq, fmt.Sprintf("%s #%d side%d vs its copy side%d: %d / %d objects, dump texts %s; original dump (digest) %s ; copy dump %s", kind, serial, parent.id, child.id, na, nb, same, digest(da), digest(db)), kind, true)
+	g.add(coq, fmt.Sprintf("%s #%d side%d vs its copy side%d: %d / %d objects, dump texts %s; original dump (digest) %s ; copy dump %s", kind, serial, parent.id, child.id, na, nb, same, digest(da), digest(db)), kind, true)
 	_ = text
 }
